@@ -5,6 +5,7 @@ import (
 	"io"
 	"net/http"
 	"strconv"
+	"strings"
 	"sync"
 
 	"connectrpc.com/vanguard"
@@ -69,11 +70,13 @@ func runBatch(tc http.Handler, ib *idBackend, batch []exchange, concurrent bool)
 func duplexBackend(payloads [][]byte) http.Handler {
 	return http.HandlerFunc(func(w http.ResponseWriter, r *http.Request) {
 		done := make(chan struct{})
+		var readErr error
 		go func() {
 			defer close(done)
 			buf := make([]byte, 64)
 			for {
 				if _, err := r.Body.Read(buf); err != nil {
+					readErr = err
 					return
 				}
 			}
@@ -89,11 +92,57 @@ func duplexBackend(payloads [][]byte) http.Handler {
 			}
 		}
 		<-done
+		if readErr != io.EOF {
+			// like any real handler: a request stream that failed is not answered with OK
+			w.Header().Set(http.TrailerPrefix+"Grpc-Status", "13")
+			w.Header().Set(http.TrailerPrefix+"Grpc-Message", "request stream failed")
+			return
+		}
 		w.Header().Set(http.TrailerPrefix+"Grpc-Status", "0")
 	})
 }
 
+type concurrentRun struct {
+	batch      []exchange
+	conc, solo []L
+	trace      L
+	desc       string
+}
+
+// runConcurrentBatch: n exchanges derived from the seed, served at the same time by one transcoder and
+// one after the other by another
+func runConcurrentBatch(seed int64) concurrentRun {
+	r := &rng{s: uint64(seed)}
+	n := pick(r, []int{2, 4, 8, 16, 32})
+	hc := genHistConf(r)
+	cb := concurrentRun{batch: make([]exchange, n)}
+	var order []string
+	for i := range cb.batch {
+		cb.batch[i] = genExchange(r, hc, r.chance(1, 2))
+		order = append(order, fmt.Sprintf("%s(%s)", cb.batch[i].kind, formNames[cb.batch[i].form]))
+	}
+	ibShared, ibSolo := &idBackend{}, &idBackend{}
+	shared := historyTranscoder(ibShared, hc)
+	pw, stop := watchPool()
+	cb.conc = runBatch(shared, ibShared, cb.batch, true)
+	cb.trace = poolTraceV(pw)
+	stop()
+	cb.solo = runBatch(historyTranscoder(ibSolo, hc), ibSolo, cb.batch, false)
+	cb.desc = fmt.Sprintf("backend %s/%s; concurrently: %s", hc.target, hc.codec, strings.Join(order, ", "))
+	return cb
+}
+
 func init() {
+	replayers["concurrent.solo"] = func(in any) any {
+		l := rList(in)
+		vanguard.VerifPoolPoison.Store(true)
+		defer vanguard.VerifPoolPoison.Store(false)
+		if rInt(l[0]) < 0 {
+			return runDuplex(rInt(l[1]))
+		}
+		cb := runConcurrentBatch(rInt(l[0]))
+		return L{cb.conc[rInt(l[1])], cb.solo[rInt(l[1])]}
+	}
 	// C14: N concurrent RPCs of mixed kinds on one transcoder; each must look exactly as when run alone.
 	// Pooled buffers are poisoned on release, so any use after release corrupts visibly.
 	suites["concurrent"] = func(c *ctx) {
@@ -101,58 +150,59 @@ func init() {
 		vanguard.VerifPoolPoison.Store(true)
 		defer vanguard.VerifPoolPoison.Store(false)
 		for b := 0; b < c.n/16+1; b++ {
-			n := pick(r, []int{2, 4, 8, 16, 32})
-			batch := make([]exchange, n)
-			for i := range batch {
-				batch[i] = genExchange(r, r.chance(1, 2))
+			seed := int64(r.next() >> 2)
+			cb := runConcurrentBatch(seed)
+			for i := range cb.batch {
+				c.emit(Case{Suite: "concurrent.solo", In: L{seed, int64(i)}, Out: L{cb.conc[i], cb.solo[i]},
+					Tags: []string{fmt.Sprintf("concurrent.n:%d", len(cb.batch)), "concurrent:" + cb.batch[i].kind}, Desc: cb.desc})
 			}
-			ibShared, ibSolo := &idBackend{}, &idBackend{}
-			shared := historyTranscoder(ibShared)
-			pw, stop := watchPool()
-			conc := runBatch(shared, ibShared, batch, true)
-			trace := poolTraceV(pw)
-			stop()
-			solo := runBatch(historyTranscoder(ibSolo), ibSolo, batch, false)
-			for i := range batch {
-				c.emit(Case{Suite: "concurrent.solo", In: L{int64(n), int64(i)}, Out: L{conc[i], solo[i]}, Tags: []string{fmt.Sprintf("concurrent.n:%d", n), "concurrent:" + batch[i].kind}})
-			}
-			c.emit(Case{Suite: "pool.trace", In: L{B("concurrent")}, Out: trace, Tags: []string{"pool.trace:concurrent"}})
+			c.emit(Case{Suite: "pool.trace", In: L{B("concurrent"), seed}, Out: cb.trace, Tags: []string{"pool.trace:concurrent"}, Desc: cb.desc})
 		}
 		// full-duplex streams: request side and response side driven from different goroutines, with
 		// request-side faults while the response side is active
 		for b := 0; b < c.n/40+1; b++ {
-			spec := subscribeSpec(pick(r, []int{formConnectStream, formGRPCWeb}), "json", "", 3)
-			req := spec.build()
-			var body []byte
-			for _, ch := range req.Chunks {
-				body = append(body, ch...)
-			}
-			fault := "none"
-			switch r.intn(3) {
-			case 1:
-				body = append(body[:len(body):len(body)], 0x07, 0, 0, 0, 1, 'x') // illegal flag after valid messages
-				fault = "badflag"
-			case 2:
-				body = body[:len(body)-2]
-				fault = "cut"
-			}
-			req.Chunks = splitChunks(r, body, 2)
-			var outs [2]L
-			for k := 0; k < 2; k++ {
-				tc := historyTranscoder(duplexBackend([][]byte{{0x0a, 0x01, 'a'}, {0x0a, 0x01, 'b'}, {0x0a, 0x01, 'c'}}))
-				var res scenarioResult
-				res = runOn(tc, req, &res)
-				view := decodeClient(spec.Form, res.Rec)
-				// the interleaving of the two goroutines legitimately decides how many messages got out before
-				// the fault was reported: compare the outcome only
-				code := int64(0)
-				for _, e := range view.Ends {
-					code = e.Code
-				}
-				outs[k] = L{int64(view.Heads), code != 0, res.Panic != "", view.Framing == ""}
-			}
-			c.emit(Case{Suite: "concurrent.solo", In: L{int64(-1), B(fault)}, Out: L{outs[0], outs[1]}, Tags: []string{"concurrent:duplex", "concurrent.duplex:" + fault}})
+			seed := int64(r.next() >> 2)
+			out, fault := runDuplexT(seed)
+			c.emit(Case{Suite: "concurrent.solo", In: L{int64(-1), seed, B(fault)}, Out: out, Tags: []string{"concurrent:duplex", "concurrent.duplex:" + fault}})
 		}
 		_ = io.EOF
 	}
+}
+
+func runDuplex(seed int64) L { out, _ := runDuplexT(seed); return out }
+
+// runDuplexT: a full-duplex stream with a request-side fault, run twice
+func runDuplexT(seed int64) (L, string) {
+	r := &rng{s: uint64(seed)}
+	spec := subscribeSpec(pick(r, []int{formConnectStream, formGRPCWeb}), "json", "", 3)
+	req := spec.build()
+	var body []byte
+	for _, ch := range req.Chunks {
+		body = append(body, ch...)
+	}
+	fault := "none"
+	switch r.intn(3) {
+	case 1:
+		body = append(body[:len(body):len(body)], 0x07, 0, 0, 0, 1, 'x') // illegal flag after valid messages
+		fault = "badflag"
+	case 2:
+		body = body[:len(body)-2]
+		fault = "cut"
+	}
+	req.Chunks = splitChunks(r, body, 2)
+	var outs [2]L
+	for k := 0; k < 2; k++ {
+		tc := historyTranscoder(duplexBackend([][]byte{{0x0a, 0x01, 'a'}, {0x0a, 0x01, 'b'}, {0x0a, 0x01, 'c'}}), histConf{vanguard.ProtocolGRPC, "proto"})
+		var res scenarioResult
+		res = runOn(tc, req, &res)
+		view := decodeClient(spec.Form, res.Rec)
+		// the interleaving of the two goroutines legitimately decides how many messages got out before
+		// the fault was reported: compare the outcome only
+		code := int64(0)
+		for _, e := range view.Ends {
+			code = e.Code
+		}
+		outs[k] = L{int64(view.Heads), code != 0, res.Panic != "", view.Framing == ""}
+	}
+	return L{outs[0], outs[1]}, fault
 }
